@@ -101,6 +101,20 @@ def r1(F, R):
     # the enqueue path groups by the classifier
     _, _, ins = role_insert(F)
     grp = [(s, t) for s, t in ins.calls(lambda t: callee_is(t, r"into_group_map_by$", r"into_group_map$", r"group_by$"))]
+    from .c04 import loop_enqueue_idiom
+    keyed = [(b, ent) for b, s, t, ent, cont in loop_enqueue_idiom(F, ins)["pushes"] if ent is not None]
+    if not grp and keyed:
+        # explicit-loop spelling: every element is pushed to `map.entry(key).or_default()`
+        R.ok("group-by-present", ins, "grouped by map.entry(key)…push(..)")
+        ok = True
+        for b, ent in keyed:
+            rsl = A.slice_back(b, [ent["args"][1]])
+            ok = ok and any((op_fn(ct["func"]) or {}).get("self", "").lstrip("&") in ("Which", "F") and
+                            re.search(r"ops::Fn(Mut|Once)?$", (op_fn(ct["func"]) or {}).get("trait", "")) for _, ct in rsl.calls)
+        R.check(ok, "group-key-is-classifier-result", ins, "group key = which_scenario(feature, rule, scenario)",
+                "the grouping key is not the result of the which_scenario classifier")
+        R.floor(6)
+        return
     R.check(len(grp) == 1, "group-by-present", ins, "", f"{len(grp)} grouping calls on the enqueue path")
     if len(grp) == 1:
         s, t = grp[0]
